@@ -48,9 +48,12 @@ Definition has_any_self_by_value (fns : list trait_fn) : bool :=
                      | _ => false
                      end) fns.
 
-(** the [EntraitT: Sync [+ Send] + 'static] parameter of [ParamsGenerator] *)
+(** [token_util::CoreMarker] *)
+Definition core_marker (name : string) : toks := abs_path ["core"; "marker"; name].
+
+(** the [EntraitT: ::core::marker::Sync [+ ::core::marker::Send] + 'static] parameter of [ParamsGenerator] *)
 Definition impl_t_param (self_by_value : bool) : gparam :=
-  let bounds := [[TId "Sync"]] ++ (if self_by_value then [[TId "Send"]] else []) ++ [[pc "'"; TId "static"]] in
+  let bounds := [core_marker "Sync"] ++ (if self_by_value then [core_marker "Send"] else []) ++ [[pc "'"; TId "static"]] in
   mkGP GType [] "EntraitT" ([pc ":"] ++ join [pc "+"] bounds) bounds.
 
 Definition impl_params (with_impl_t self_by_value : bool) (params : list gparam) : list gparam :=
@@ -157,6 +160,7 @@ Definition make_trait_fn_sig (s : sig) (subs : list attr) (o : opts) : sig :=
 
 (** [gen_trait_def] *)
 Definition gen_trait_def (o : opts) (ti : trait_indirection) (mode : trait_dep_mode) (subs : list attr)
+           (literal : option (list attr))   (* RawTrait: the entraited trait's own attributes, emitted as written *)
            (v : vis) (name : string) (tg : trait_generics) (colon : bool) (supers : punct toks)
            (fns : list trait_fn) (im : input_mode) : item_trait :=
   let unimock_attr :=
@@ -165,7 +169,8 @@ Definition gen_trait_def (o : opts) (ti : trait_indirection) (mode : trait_dep_m
   let entrait_attr := match mode with MConcrete _ => [entrait_for_trait_attr] | MGeneric => [] end in
   let mockall_attr := if mockall_value o then [export_gated o mockall_params] else [] in
   let fn_defs := map (fun tf => TFn (tf_attrs tf) (make_trait_fn_sig (tf_sig tf) subs o) None true) fns in
-  mkTrait (unimock_attr ++ entrait_attr ++ mockall_attr ++ filter is_trait_sub subs)
+  mkTrait (unimock_attr ++ entrait_attr ++ mockall_attr ++
+           match literal with Some l => l | None => filter is_trait_sub subs end)
           (trait_visibility im v) false false name
           (mkGen true (p_of_list (tg_params tg))
                  (match p_items (tg_where tg) with [] => None | _ => Some (tg_where tg) end))
@@ -202,9 +207,17 @@ Definition delegating_fn (ind : impl_indirection) (im : input_mode) (tf : trait_
     end in
   let* args := call_args (p_items (s_inputs s)) in
   let scoping := match im with MImplBlock => [TId "Self"] ++ path_sep | _ => [] end in
-  Ok (IIFn [] [] s
+  Ok (IIFn (tf_attrs tf) [] s
         [TG Brace (scoping ++ [TId (s_name s); TG Paren (self_comma ++ join [comma] args)] ++
                    (if tf_async tf then [pc "."; TId "await"] else []))]).
+
+(** [TraitFn::with_cfg_attrs_of]: [attr.path().is_ident("cfg")] *)
+Definition is_cfg_attr (a : attr) : bool :=
+  match a with
+  | TId "cfg" :: TP ":"%char :: _ => false
+  | TId "cfg" :: _ => true
+  | _ => false
+  end.
 
 (** [gen_impl_block] *)
 Definition gen_impl_block (o : opts) (trait_ref : toks) (ind : impl_indirection) (tg : trait_generics)
@@ -239,3 +252,7 @@ Definition detect_trait_dependency_mode (im : input_mode) (fns : list trait_fn) 
       | MRawTrait => Panic "analyze_generics.rs:84 Should not detect dependencies for this input mode"
       end
   end.
+
+Definition custom_delegate_msg : string :=
+  "Cannot use a custom delegating trait without a custom trait to delegate to. Use either `#[entrait(TraitImpl, delegate_by = DelegateTrait)]` or `#[entrait(delegate_by = ref)]`".
+
